@@ -328,7 +328,7 @@ func (rc *RunCtx) execFamily(u *ExecUniverse, prefixes ...string) {
 // item is ignored.
 func (rc *RunCtx) reproduces(u *ExecUniverse, ref CaseRef, row ObsRow) bool {
 	c := u.caseOf(ref)
-	loose := multiMember(c.Doc)
+	loose := multiMember(c.Doc) || strings.Contains(pathText(c.Path), "keyvalue")
 	for _, v := range c.Vars {
 		loose = loose || multiMember(v.V)
 	}
